@@ -36,6 +36,10 @@ type Prop struct {
 	// Runs per tier (total over all workers) for the sim layer and the race layer.
 	Quick, Thorough         int
 	RaceQuick, RaceThorough int
+	// HangIsViolation: the property's statement is about prompt termination (Stop / Close), so a run
+	// of the race layer that stops making progress in real time (a goroutine blocked on a real lock
+	// cannot be timed out by the bubble's clock) is a violation, not harness trouble.
+	HangIsViolation bool
 	// Components, for evidence.
 	Real, Stub []string
 	Rule       string
